@@ -1133,18 +1133,28 @@ def execute(plan):
                 if op["m"] == "fit" and cs.nf_master is not None:
                     # "If None, the registered B is used": the same fit with the currently
                     # registered targets passed explicitly, on a copy of the reference object
-                    ro = copy.deepcopy(cs.nf_master)
-                    Bcur = np.array(ro.B, copy=True)
-                    if op.get("how", "fit") == "mv":
-                        explicit = call(lambda: tuple(ro.minimize_variance(Bcur)[:2]))
-                    else:
-                        explicit = call(lambda: tuple(ro.fit(Bcur)))
+                    # "the registered B": what the object currently holds as B, or - an equally
+                    # defensible reading after an earlier fit - the targets as they were
+                    # registered; the internal call must agree with one of the two
+                    explicit = []
+                    cands = [np.array(cs.nf_master.B, copy=True)]
+                    tB = getattr(cs.nf_master, "target_B", None)
+                    if tB is not None and not np.array_equal(np.asarray(tB), cands[0]):
+                        cands.append(np.array(tB, copy=True))
+                    for Bcur in cands:
+                        ro = copy.deepcopy(cs.nf_master)
+                        if op.get("how", "fit") == "mv":
+                            explicit.append(call(lambda: tuple(ro.minimize_variance(Bcur)[:2])))
+                        else:
+                            explicit.append(call(lambda: tuple(ro.fit(Bcur))))
                 out = call(apply_mutator, cs.est, op, pool)
                 check_pool(f"mutator {op['m']}")
                 log.add(cid, "m:" + op["m"], out)
-                if out.ok and explicit is not None and explicit.ok:
+                if out.ok and explicit and all(e.ok for e in explicit):
                     got = Outcome("ok", (np.asarray(cs.est.X), np.asarray(cs.est.B)))
-                    ok_, _, why_ = compare(got, explicit, *TOL_SOLVER)
+                    cmp_ = [compare(got, e, *TOL_SOLVER) for e in explicit]
+                    ok_ = any(c_[0] for c_ in cmp_)
+                    why_ = cmp_[0][2]
                     bump("internal_vs_explicit_fit_checks")
                     if not ok_:
                         raise Violation(ID, "internal_fit_differs_from_explicit_fit",
